@@ -152,27 +152,16 @@ def evalCtxs (c : STCfg) : Store → List Op → List Nat
       (if !Spec.anyMatch c ev && Spec.watchedChange c ev && c.expr.isSome then [ev.ctx] else [])
         ++ evalCtxs c (st.put o.e o.new) ops
 
-/-- contexts of watched changes of a decorator WITHOUT expression that match no any-change form -/
-def noExprCtxs (c : STCfg) : Store → List Op → List Nat
-  | _, [] => []
-  | st, o :: ops =>
-    match Spec.eventOf st o with
-    | none => noExprCtxs c st ops
-    | some ev =>
-      (if !Spec.anyMatch c ev && Spec.watchedChange c ev && c.expr.isNone then [ev.ctx] else [])
-        ++ noExprCtxs c (st.put o.e o.new) ops
-
 def hasUndef (env : Env) : Bool := env.any (fun p => p.2 == Val.undef)
 
 /-- diagnostics for the classifier: where did the model's environment differ from the spec environment
-(`live` = a name was read live with another value, `undef` = a name raised), where did a no-expression decorator see a
-watched non-any change -/
-def diag (i : Nat) (c : STCfg) (modelEvals specEvals : List Env) (ctxs : List Nat) (noex : List Nat) : List Sexp :=
+(`live` = a name was read live with another value, `undef` = a name raised) -/
+def diag (i : Nat) (c : STCfg) (modelEvals specEvals : List Env) (ctxs : List Nat) : List Sexp :=
   let rec go : List Env → List Env → List Nat → List Sexp
     | m :: ms, s :: ss, k :: ks =>
       (if m == s then [] else [sxl [sxn i, sxn k, sx (if hasUndef m then "undef" else "live")]]) ++ go ms ss ks
     | _, _, _ => []
-  go modelEvals specEvals ctxs ++ noex.map (fun k => sxl [sxn i, sxn k, sx "noexpr"]) ++
+  go modelEvals specEvals ctxs ++
     (if c.watch.isSome && !(c.exprNames.all (fun n => c.ident.contains n)) then [sxl [sxn i, sxn 0, sx "watch-subset"]]
      else [])
 
@@ -190,7 +179,7 @@ def run (legacy : Bool) (cfgs : List STCfg) (live : Store) (steps : List Step) :
     | some c => sxn (Spec.stEvals c live ops).length
     | none => sxn 0)
   let dg := idx.flatMap (fun i => match cfgs[i]? with
-    | some c => diag i c (s.ts i).evals (Spec.stEvals c live ops) (evalCtxs c live ops) (noExprCtxs c live ops)
+    | some c => diag i c (s.ts i).evals (Spec.stEvals c live ops) (evalCtxs c live ops)
     | none => [])
   let model := sxl [sx "runs", sxl mRuns, sx "evals", sxl mEvals, sx "pending", sxl pend]
   let spec := sxl [sx "runs", sxl sRuns, sx "evals", sxl sEvals]
